@@ -894,6 +894,20 @@ class ObjCell(Cell):
         if isinstance(m, ClassMethodV):
           return m
         return BoundMethod(ref, m)
+    if name == 'replace' and self.cls is not None and self.cls.dc_fields is not None:
+      # fedjax.core.dataclasses.dataclass adds replace(**updates) = dataclasses.replace(self, **updates)
+      cell = self
+
+      def replace(c, **updates):
+        names = [n for n, _ in cell.cls.dc_fields]
+        for k in updates:
+          if k not in names:
+            c.oblige('replace.field', False, kind='definedness', detail=f'TypeError: unexpected field {k} in replace()')
+            raise PathDead()
+        fields = dict(c.heap[ref.addr].fields)
+        fields.update(updates)
+        return c.alloc(ObjCell(cell.cls, fields, label=cell.label))
+      return Handler(replace, 'dataclass.replace')
     ctx.oblige(f'attr.{name}', False, kind='definedness',
                detail=f'AttributeError: {self.label or "object"}.{name}')
     raise PathDead()
